@@ -9,6 +9,8 @@ A *case* (JSON-serialisable, this is also the replay format):
    "via":   "direct" | "default" | "decorator" | "noself"    (noself: through cashews.key.noself(cache)(ttl=..), no key=)
    "recv":  absent | "obj"       (obj: a str bound to the first parameter is passed as an object whose __str__ is that text)
    "flight": absent | "cache" | "early" | "soft"   (also run pairs of overlapping calls through that decorator)
+   "inside": absent | one of INSIDE_KINDS   (decorated vias: the calls are made inside the body of an enclosing function with the same
+                                  parameter names, decorated with that cashews decorator and called with other values)
    "reuse": absent | true        (noself only: the decorator object noself(cache)(ttl=..) is first applied to a sibling function
                                   with the same signature, which is also called with the same arguments before every call)
    "prefix": str (decorator only),
@@ -884,7 +886,9 @@ async def run_decorated(case) -> dict:
         out["decor_error"] = type(exc).__name__
         await cache.close()
         return out
-    with _Ctx(case.get("ctx")):
+    from cashews.key import get_cache_key
+
+    async def do_calls():
         for g in case["groups"]:
             for c in g["calls"]:
                 args, kwargs = call_values(case, c)
@@ -906,8 +910,107 @@ async def run_decorated(case) -> dict:
                     "key": ("K:" + gets[0]) if gets else res if res.startswith("E:") else "E:noget",
                     "gets": gets, "sets": sets, "result": res, "ran": len(func._calls) - ran0,
                 })
+                if case.get("inside"):
+                    # what get_cache_key itself says at this place (inside the body of the enclosing decorated function)
+                    try:
+                        out["calls"][-1]["direct_here"] = "K:" + get_cache_key(func, out["tmpl"], args, kwargs)
+                    except Exception as exc:  # noqa: BLE001
+                        out["calls"][-1]["direct_here"] = "E:" + type(exc).__name__
+
+    with _Ctx(case.get("ctx")):
+        if case.get("inside"):
+            try:
+                outer, okw = enclosing_function(cache, case, do_calls)
+            except Exception as exc:  # noqa: BLE001
+                await cache.close()
+                raise InsideError(f"could not build the enclosing function ({case['inside']}): {type(exc).__name__}: {exc}") from exc
+            n0 = len(out["calls"])
+            try:
+                await outer(**okw)
+            except Exception as exc:  # noqa: BLE001
+                await cache.close()
+                raise InsideError(f"the enclosing function ({case['inside']}) raised {type(exc).__name__}: {exc}") from exc
+            if len(out["calls"]) - n0 != sum(len(g["calls"]) for g in case["groups"]):
+                await cache.close()
+                raise InsideError(f"the body of the enclosing function ({case['inside']}) did not run exactly once")
+        else:
+            await do_calls()
     await cache.close()
     return out
+
+
+class InsideError(RuntimeError):
+    """the enclosing decorated function of an `inside` case could not be built / run (a harness error)"""
+
+
+OUTER_PREFIX = "O-"
+INSIDE_KINDS = ["invalidate", "invalidate_tmpl", "cache", "early", "soft", "hit", "failover", "locked", "circuit_breaker", "rate_limit",
+                "slice_rate_limit", "disabling"]
+# not among them: cache.transaction() and cache.invalidate_further() - inside them a read does not reach the backend's
+# `get` (transaction buffer / delete-instead-of-read), so the key a call reads is not observable the way the harness observes it
+
+
+def outer_values(case) -> dict:
+    """the keyword arguments of the enclosing call: every named parameter of the case's signature (and, with **kwargs,
+    the extra keyword names the harness uses) with a value no inner call has"""
+    okw = {}
+    for kind, name, _ in case["sig"]:
+        if kind in "pk":
+            okw[name] = OUTER_PREFIX + name
+        elif kind == "w":
+            for n in EXTRA_KW_NAMES:
+                okw[n] = OUTER_PREFIX + n
+    return okw
+
+
+def enclosing_function(cache, case, body):
+    """an `async def outer(<the parameters of the case's function>)` whose body runs `body()` (the case's calls),
+    decorated with the cashews decorator / entered through the cashews context manager named by case['inside']; the
+    parameter names - and so every name a key context built from the enclosing call could hold - are those of the
+    inner function's template fields, the values are different"""
+    kind = case["inside"]
+    params, ns = sig_source(case["sig"])
+    ns["__name__"] = "m"
+    ns["_BODY"] = body
+    exec(f"async def outer({params}):\n    return await _BODY()\n", ns)
+    outer = ns["outer"]
+    okw = outer_values(case)
+    named = [n for k, n, _ in case["sig"] if k in "pk"]
+    fields = ":".join("{" + n + "}" for n in named)
+    if kind == "invalidate":
+        deco = cache.invalidate("inv:" + (("{" + named[0] + "}:") if named else "") + "*")
+    elif kind == "invalidate_tmpl":
+        deco = cache.invalidate("inv:" + fields + ":*", defaults={n: "D-" + n for n in named[:1]})
+    elif kind == "cache":
+        deco = cache(ttl=64, key="outer:" + fields if named else None)
+    elif kind == "early":
+        deco = cache.early(ttl=64, early_ttl=32)
+    elif kind == "soft":
+        deco = cache.soft(ttl=64, soft_ttl=32)
+    elif kind == "hit":
+        deco = cache.hit(ttl=64, cache_hits=3)
+    elif kind == "failover":
+        deco = cache.failover(ttl=64)
+    elif kind == "locked":
+        deco = cache.locked(ttl=64)
+    elif kind == "circuit_breaker":
+        deco = cache.circuit_breaker(errors_rate=50, period=64, ttl=64)
+    elif kind == "rate_limit":
+        deco = cache.rate_limit(limit=1000, period=64)
+    elif kind == "slice_rate_limit":
+        deco = cache.slice_rate_limit(limit=1000, period=64)
+    elif kind == "disabling":
+        inner = outer
+
+        async def outer(**kw):  # noqa: F811
+            from cashews.commands import Command
+            with cache.disabling(Command.PING):
+                return await inner(**kw)
+
+        return outer, okw
+    else:
+        raise ValueError(f"unknown enclosing kind {kind!r}")
+    return deco(outer), okw
 
 
 def expected_result(case, call) -> str | None:
